@@ -259,6 +259,8 @@ class Interp:
         self.max_depth = max_depth
         self.types = dict(types or {})          # term key -> ClassInfo
         self.no_inline = set(no_inline)         # short quals never inlined
+        self._assign_trackers = []
+        self._plain_loops = set()
         self.quantity_plain = quantity_plain
         self.expansions = expansions            # ClassExpansions or None
         self.opaque_attrs = set(opaque_attrs)
@@ -538,7 +540,9 @@ class Interp:
             return TRUE
         return T.mk_or([T.mk_and([c, live_t]), T.mk_and([T.mk_not(c), live_e])])
 
-    def _assigned_names(self, stmts):
+    def _assigned_names(self, stmts, rebinding=True):
+        """names the statements may change; rebinding=False: only those changed IN PLACE (item stores, mutating methods,
+        actuals a callee mutates)"""
         names = set()
 
         def root(n):
@@ -548,7 +552,8 @@ class Interp:
         for st in stmts:
             for n in ast.walk(st):
                 if isinstance(n, ast.Name) and isinstance(n.ctx, (ast.Store, ast.Del)):
-                    names.add(n.id)
+                    if rebinding:
+                        names.add(n.id)
                 elif isinstance(n, ast.Subscript) and isinstance(n.ctx, (ast.Store, ast.Del)):
                     r = root(n)
                     if r and r != 'self':
@@ -589,6 +594,36 @@ class Interp:
             if isinstance(actual, ast.Name):
                 out.add(actual.id)
         return out
+
+    def _invariant_guard(self, stores, lid, written):
+        """stores: path conditions (relative to the loop body) of the re-bindings of one name.  Returns the
+        loop-invariant part of "some iteration re-binds the name": OR over the stores of the AND of the conjuncts that
+        mention nothing the loop changes.  None when not expressible; TRUE when a store is (invariantly) unconditional."""
+        if not stores:
+            return None
+        wkeys = {k for k in written}
+        alts = []
+        for pc in stores:
+            conj = []
+            todo = list(pc)
+            while todo:
+                c = todo.pop()
+                ca = c.single_atom()
+                if ca is not None and ca.kind == 'and':
+                    todo.extend(ca.args)
+                    continue
+                variant = False
+                for a in T.all_atoms(c).values():
+                    if a.kind in ('loopvar', 'idx', 'elem', 'key', 'after', 'partial', 'exc', 'undef'):
+                        variant = True
+                    elif a.kind == 'attr' and (a.args[0].key, a.args[1]) in wkeys:
+                        variant = True
+                    elif a.kind == 'call' and not (str(a.args[0]) in T.MODELLED or str(a.args[0]).startswith('.')):
+                        variant = True            # an opaque call may depend on state the loop changes
+                if not variant:
+                    conj.append(c)
+            alts.append(T.mk_and(conj) if conj else TRUE)
+        return T.mk_or(alts) if len(alts) > 1 else alts[0]
 
     def _row_views(self, st):
         """loop target names that are views of the rows of a local array and are stored into in the body:
@@ -666,6 +701,10 @@ class Interp:
         env0, heap0 = dict(fr.env), dict(self.heap)
         rec, self.record = self.record, False
         nev = len(self.events)
+        # names that the body only re-binds (never mutates in place): candidates for a guarded havoc
+        elig = (rebound - self._assigned_names(st.body, rebinding=False)) & set(env0) if id(st) not in self._plain_loops else set()
+        track1 = {}
+        self._assign_trackers.append((fr, len(self.pc), track1))
         try:
             e1 = dict(env0)
             for n in assigned:
@@ -677,13 +716,34 @@ class Interp:
             self.exec_block(st.body, fr)
             written = [k for k, v in self.heap.items() if k not in heap0 or heap0[k].key != v.key]
         finally:
+            self._assign_trackers.pop()
             self.record = rec
             del self.events[nev:]
+        inv1 = {n: self._invariant_guard(track1.get(n), lid, written) for n in elig}
+        inv1 = {n: g for n, g in inv1.items() if g is not None and g.key != TRUE.key}
+        # a name re-bound only in the LAST iteration (every re-binding is under `index == trip - 1`) has its entry value
+        # at the top of every iteration
+        last_only = set()
+        if kind == 'for' and 'trip' in info and not any(isinstance(n_, ast.Break) for b in st.body for n_ in _walk_same_loop(b)):
+            last_c = T.mk_cmp('==', info['index'], info['trip'] - 1)
+            for n in elig:
+                sts = track1.get(n)
+                if sts and all(any(last_c.key in (c.key, ) or any(x.key == last_c.key for x in (
+                        c.single_atom().args if c.single_atom() is not None and c.single_atom().kind == 'and' else ()))
+                        for c in pc) for pc in sts):
+                    last_only.add(n)
+        info['last_only'] = last_only
         # pass 2: the recorded pass, with loop-carried state havoc'ed
         fr.env, self.heap = dict(env0), dict(heap0)
         carried = [n for n in assigned if n in env0]
         for n in carried:
             fr.env[n] = Term.of(Atom('loopvar', canon.get(n, n), lid))
+            if n in inv1:
+                # every re-binding of n is under a condition that does not change during the loop: where that condition
+                # is false the name keeps the value it had on entry
+                fr.env[n] = T.mk_ite(inv1[n], fr.env[n], env0[n])
+            if n in last_only:
+                fr.env[n] = env0[n]
         for k in written:
             self.heap[k] = Term.of(Atom('loopvar', k[0] + '.' + k[1], lid))
         if kind == 'for':
@@ -696,11 +756,33 @@ class Interp:
         old_loops = self.loops
         self.loops = old_loops + (info,)
         n0 = len(self.pc)
+        track2 = {}
+        self._assign_trackers.append((fr, n0, track2))
         try:
             self.exec_block(st.body, fr)
         finally:
+            self._assign_trackers.pop()
             self.loops = old_loops
             del self.pc[n0:]
+        if inv1 or last_only:
+            # the guards were computed on the discovery pass (heap not yet havoc'ed): they must be the same on the real one
+            bad = False
+            if last_only:
+                last_c = T.mk_cmp('==', info['index'], info['trip'] - 1)
+                for n in last_only:
+                    sts = track2.get(n)
+                    if not (sts and all(any(c.key == last_c.key or any(x.key == last_c.key for x in (
+                            c.single_atom().args if c.single_atom() is not None and c.single_atom().kind == 'and' else ()))
+                            for c in pc) for pc in sts)):
+                        bad = True
+            for n, g in inv1.items():
+                g2 = self._invariant_guard(track2.get(n), lid, written)
+                if bad or g2 is None or g2.key != g.key:
+                    self._plain_loops.add(id(st))
+                    del self.events[nev:]
+                    fr.env, self.heap = dict(env0), dict(heap0)
+                    self._loop_id -= 1
+                    return self._loop(st, fr, kind)
         info['env_exit'] = dict(fr.env)
         info['heap_exit'] = dict(self.heap)
         # after the loop
@@ -709,6 +791,8 @@ class Interp:
         for n in assigned:
             acc = self._accumulator(st, n, info, env0.get(n), fr) if kind == 'for' else None
             fr.env[n] = acc if acc is not None else Term.of(Atom('after', canon.get(n, n), lid))
+            if n in inv1 and n in env0:
+                fr.env[n] = T.mk_ite(inv1[n], fr.env[n], env0[n])
         for k in written:
             self.heap[k] = Term.of(Atom('after', k[0] + '.' + k[1], lid))
         if st.orelse:
@@ -985,6 +1069,9 @@ class Interp:
     def assign(self, tgt, v, fr, st, aug=None, rhs=None, old=None, quiet=False):
         if isinstance(tgt, ast.Name):
             fr.env[tgt.id] = v
+            for (tfr, tn0, tdict) in self._assign_trackers:
+                if tfr is fr:
+                    tdict.setdefault(tgt.id, []).append(tuple(self.pc[tn0:]))
             if not quiet:
                 self.emit('store', st, fr, target='name', name=tgt.id, value=v, aug=aug, rhs=rhs, old=old)
         elif isinstance(tgt, (ast.Tuple, ast.List)):
